@@ -338,6 +338,16 @@ func (rw *rewriter) file(f *ast.File, fname string) bool {
 			c.Replace(rw.goStmt(n))
 		case *ast.CallExpr:
 			rw.call(n)
+		case *ast.SelectorExpr:
+			// clock reads of the code under test (time.Now / Since / Until, called or passed as values):
+			// the simulator accounts the simulated CPU time used so far before the clock is read
+			if id, ok := n.X.(*ast.Ident); ok && *flagBlocking && (n.Sel.Name == "Now" || n.Sel.Name == "Since" || n.Sel.Name == "Until") {
+				if pn, ok := rw.info.Uses[id].(*types.PkgName); ok && pn.Imported().Path() == "time" {
+					rw.site("clock", n.Pos(), n.Sel.Name)
+					c.Replace(&ast.SelectorExpr{X: ast.NewIdent(simrtName), Sel: ast.NewIdent(n.Sel.Name)})
+					rw.used = true
+				}
+			}
 		case *ast.UnaryExpr:
 			if n.Op == token.ARROW {
 				if *flagBlocking {
